@@ -15,6 +15,7 @@ Inductive invariant proof over the SpectralInformation API:
  Rp presence      : optional numeric fields are tested with `is None` / membership, never by truthiness (0 is a value).
  R7 NLI sign      : the NLI spreading over channels uses sign-preserving operations only (shared with C02-R5).
  R8 named views   : every <x>_dbm getter returns watt2dbm(self.<x>); carriers fills each Channel field from the same-named attribute.
+ R9 no shallow copy / patch: spectrum objects are never shallow-copied, share arrays never patched element-wise.
 """
 import ast
 
@@ -437,6 +438,45 @@ def r8_named_views(ctx):
     ctx.need('R8.named-views', 6)
 
 
+
+def r9_no_shallow_copy_or_patch(ctx):
+    """R9: the three share arrays of a spectrum belong to ONE spectrum object and are only written whole or scaled by the
+    SpectralInformation methods: (a) no shallow copy (copy.copy / copy()) of a spectrum object anywhere in gnpy/core and
+    gnpy/topology - the copy would share the arrays that add_nli / add_ase update in place, so propagating the copy corrupts the
+    original; (b) no element-wise patch (`self._x_ratio[...] = ..`) of a share array - individual carriers would leave signal + ASE +
+    NLI = 1"""
+    from .common import site, key
+    repo = ctx.repo
+    n = 0
+    for m in repo.modules.values():
+        if not (m.name.startswith('gnpy.core') or m.name.startswith('gnpy.topology')):
+            continue
+        for f in list(m.functions.values()) + [g for c in m.classes.values() for g in c.all_funcs()]:
+            ann = {a.arg: ast.unparse(a.annotation) for a in f.node.args.args + f.node.args.kwonlyargs if a.annotation is not None}
+            for c in walk_no_nested(f.node):
+                if isinstance(c, ast.Call) and ((isinstance(c.func, ast.Name) and c.func.id == 'copy') or
+                                                (isinstance(c.func, ast.Attribute) and c.func.attr == 'copy' and
+                                                 isinstance(c.func.value, ast.Name) and c.func.value.id == 'copy')) and len(c.args) == 1:
+                    a = c.args[0]
+                    nm = a.id if isinstance(a, ast.Name) else (a.attr if isinstance(a, ast.Attribute) else '')
+                    is_si = 'SpectralInformation' in ann.get(nm, '') or nm in ('spectral_info', 'si', 'spectrum', 'spc_info', 'input_si', 'ref_si')
+                    n += 1
+                    ctx.check('R9.no-shallow-copy', f'{site(f, c)} {ast.unparse(c)[:40]}', not is_si, key(f, f'shallow-copy|{nm}'),
+                              f'{ast.unparse(c)} is a shallow copy of a spectrum: it shares the signal / ASE / NLI share arrays that add_nli and '
+                              'add_ase update in place - propagating the copy changes the original (and the sum of the shares of the original '
+                              'no longer matches its powers)')
+    si = repo.cls('SpectralInformation', 'gnpy.core.info')
+    for f in si.all_funcs():
+        for t in walk_no_nested(f.node):
+            if isinstance(t, ast.Subscript) and isinstance(t.ctx, (ast.Store, ast.Del)) and isinstance(t.value, ast.Attribute) and \
+                    t.value.attr in ('_signal_ratio', '_nli_ratio', '_ase_ratio') and \
+                    not (isinstance(getattr(t, '_parent', None), ast.AugAssign)):
+                ctx.bad('R9.no-shallow-copy', site(f, t), key(f, f'patch|{t.value.attr}'),
+                        f'{ast.unparse(t)} is patched element-wise: the carriers it touches no longer have signal + ASE + NLI = 1 '
+                        '(each share array is written whole, from the other two)')
+    ctx.check('R9.no-shallow-copy', 'scan', True, 'C01|shallow-scan', '', f'{n} copy() call(s) judged; element-wise stores into the share arrays: none')
+
+
 from ..memo import rule_for as _memo_rule
 
 RULES_MEMO = ('Rm.memo', _memo_rule('C01', 'a stale share or GSNR would be reported after the spectrum was updated'))
@@ -446,7 +486,7 @@ from ..presence import rule_for as _presence_rule
 
 RULES_PRESENCE = ('Rp.presence', _presence_rule('C01', 'a legal zero would be read as missing'))
 
-RULES = [('R6.published-figures', r6_published), ('R5.split-merge', r5_split_merge), ('R1.ownership', r1_ownership), ('R2.base', r2_base), ('R3.step', r3_step), ('R4.reported', r4_reported), RULES_MEMO, RULES_PRESENCE, ('R7.nli-sign', r7_nli_sign), ('R8.named-views', r8_named_views)]
+RULES = [('R6.published-figures', r6_published), ('R5.split-merge', r5_split_merge), ('R1.ownership', r1_ownership), ('R2.base', r2_base), ('R3.step', r3_step), ('R4.reported', r4_reported), RULES_MEMO, RULES_PRESENCE, ('R7.nli-sign', r7_nli_sign), ('R8.named-views', r8_named_views), ('R9.no-shallow-copy', r9_no_shallow_copy_or_patch)]
 
 
 def proof_keys(ctx):
